@@ -114,6 +114,7 @@ class SingleDiskStorageSchedule(CheckpointSchedule):
         super().__init__()
         self._move_data = move_data
         self._storage = StorageType.DISK
+        self._exhausted = False
 
     def _iterator(self):
         """Schedule iterator.
@@ -146,17 +147,17 @@ class SingleDiskStorageSchedule(CheckpointSchedule):
                 yield Reverse(n1, n0, True)
             if self._r > self._max_n:
                 raise RuntimeError("Invalid checkpointing state")
+            if self._move_data:
+                # The data has been moved: no further adjoint calculation
+                self._exhausted = True
+                yield EndReverse()
+                break
             self._r = 0
             yield EndReverse()
 
-            if self._move_data:
-                break
-
     @property
     def is_exhausted(self):
-        return (self._move_data
-                and self._max_n is not None
-                and self._r == self._max_n)
+        return self._exhausted
 
     def uses_storage_type(self, storage_type):
         """Check if a given storage type is used by this schedule.
